@@ -42,6 +42,9 @@ q('spsc_cap2', 2, ['PUSH(0);PUSH(1)', 'POP();POP()'])
 q('spsc_cap1_wrap', 1, ['PUSH(0);PUSH(1);PUSH(2)', 'POP();POP();POP()'])
 # the 16-bit slot version at its largest value (65535 = full in round 32767): the next pusher must still register as a waiter
 q('version_65535_cap1', 1, ['PUSH(0);PUSH(1)', 'POP();POP()'], extra_defs=['VF_QINIT=q->_next_push_index.store(32767); q->_next_pop_index.store(32767); q->_slots.futex(0)._futex.value().store(65534)'])
+# same wrap, the full slot freed by the BATCH pop path (set_version + wakeup_waiters(expected_version + 1) with the 16-bit sum wrapping to 0)
+q('version_65535_popn_cap1', 1, ['PUSH(0);PUSH(1)', 'POPN(1);POPN(1)'], extra_defs=['VF_QINIT=q->_next_push_index.store(32767); q->_next_pop_index.store(32767); q->_slots.futex(0)._futex.value().store(65534)'])
+q('version_65535_trypopn_cap1', 1, ['PUSH(0);PUSH(1);SIGNAL(0)', 'POPN(1);AWAIT(0);TRYPOPN(1)'], extra_defs=['VF_QINIT=q->_next_push_index.store(32767); q->_next_pop_index.store(32767); q->_slots.futex(0)._futex.value().store(65534)'], tiers=('dev',))
 q('mpmc_cap1', 1, ['PUSH(0)', 'PUSH(0)', 'POP()', 'POP()'], models={'quick': ['sc', 'arm'], 'thorough': ['sc', 'tso', 'arm']})
 q('cb_cap2', 2, ['PUSHCB(0);PUSHCB(1)', 'POPCB();POPCB()'])
 q('pushn_cap2', 2, ['PUSHN(0,2)', 'POP();POP()'])
@@ -249,6 +252,14 @@ fx('value_change_vs_new_waiter', '(void)0', ['NEW_WAITER(0)', 'fx->atomic_value(
 fx('value_change_vs_second_waiter', 'make_waiter(1,0)', ['NEW_WAITER(0)', 'fx->atomic_value().store(1, std::memory_order_release);WAKE_ONE();WAKE_ONE()'], 'vf_check(resumed[1]==1 && (suspended[0]==0 || resumed[0]==1), 6)')
 fx('two_wake_one', 'make_waiter(0,0); make_waiter(1,0)', ['WAKE_ONE()', 'WAKE_ONE()'], 'vf_check(resumed[0]==1 && resumed[1]==1 && ret[0]==1 && ret[1]==1, 2)')
 
+# real C++20 coroutines (clang's lowering at -O1): Task co_awaiting Cancellable<Task> / Future / Task on a harness executor
+CXX_ = ['babylon/basic_executor.cpp']
+for _k, _nm in ((0, 'cancellable'), (1, 'future'), (2, 'task')):
+    S('cx_seq_' + _nm, 'coro/cx_seq.cpp', {'assert': 'C13'}, std=20, defs=['VF_KIND=%d' % _k], extra=CXX_, models=['sc'], bound=8)
+CXFIN = 'vf_check(resumed == 1 && finished == 1 && in_exec_at_resume == 1, 4); vf_check((cancel_ret == 1) == (has_value == 0), 3); if (has_value) vf_check(value == 42, 3)'
+S('cx_cancel_vs_set', 'coro/cx.cpp', {'assert': 'C13'}, std=20, defs=['VF_KIND=0', 'VF_T0=SET(42)', 'VF_T1=CANCEL()', 'VF_FINAL=' + CXFIN], extra=CXX_, tiers=DEV)
+S('cx_future_set', 'coro/cx.cpp', {'assert': 'C13'}, std=20, defs=['VF_KIND=1', 'VF_T0=SET(42)', 'VF_T1=vf_yield()', 'VF_FINAL=vf_check(resumed == 1 && finished == 1 && value == 42 && in_exec_at_resume == 1, 4)'], extra=CXX_, tiers=DEV)
+
 # ----------------------------------------------------------------------------------------------- C17: page allocators / object pool
 PAX = ['babylon/reusable/page_allocator.cpp', 'babylon/concurrent/counter.cpp']
 def cpa(name, ts, cap=1, final='(void)0', init=None, **kw):
@@ -275,6 +286,8 @@ RVX = ['babylon/reusable/memory_resource.cpp', 'babylon/reusable/page_allocator.
 S('rv_ops_k2', 'reusable/rv.cpp', {'assert': 'C12'}, defs=['VF_K=2'], extra=RVX, models=['sc'], bound=10)
 S('rv_ops_k3', 'reusable/rv.cpp', {'assert': 'C12'}, defs=['VF_K=3'], extra=RVX, models=['sc'], bound=10)
 S('rv_ops_k3_prefilled', 'reusable/rv.cpp', {'assert': 'C12'}, defs=['VF_K=2', 'VF_INIT=v->push_back(7); v->push_back(8); v->push_back(9); ref[0]=7; ref[1]=8; ref[2]=9; rn=3'], extra=RVX, models=['sc'], bound=10)
+# multi-element insert in front of a tail / range erase, then growth (push_back / reserve by resize) so that a wrong constructed-size mark shows
+S('rv_ops_insert_n_prefilled', 'reusable/rv.cpp', {'assert': 'C12'}, defs=['VF_K=3', 'VF_OPMASK=0x1b3', 'VF_INIT=v->push_back(7); v->push_back(8); v->push_back(9); ref[0]=7; ref[1]=8; ref[2]=9; rn=3'], extra=RVX, models=['sc'], bound=10)
 # nested reusable vector re-created from recorded allocation metadata (the manager's periodic re-creation), workload repeated
 S('rv_meta_recreate_nested', 'reusable/rv_meta.cpp', {'assert': 'C12'}, extra=RVX, models=['sc'], bound=10)
 
@@ -405,6 +418,9 @@ S('ht_find', 'hashtable/ht2.cpp', {'assert': 'C03'})
 S('ht_two_keys_same_tag', 'hashtable/ht3.cpp', {'assert': 'C03'})
 S('ht_two_keys_same_tag_prefilled', 'hashtable/ht3.cpp', {'assert': 'C03'}, defs=['VF_PREFILL=3'])
 S('ht_two_keys_same_tag_lookup', 'hashtable/ht3.cpp', {'assert': 'C03'}, defs=['VF_LOOKUP=1'])
+# growing set: two threads emplace while the full head table forces a new table to be chained
+S('hs_conc_grow_same_key', 'hashset/hs_conc.cpp', {'assert': 'C03'}, extra=['babylon/concurrent/transient_hash_table.cpp'], tiers=('dev',))
+S('hs_conc_grow_two_keys', 'hashset/hs_conc.cpp', {'assert': 'C03'}, extra=['babylon/concurrent/transient_hash_table.cpp'], defs=['VF_K1=0x0612'], tiers=('dev',))
 # full table: insertion fails without consuming its argument
 S('ht_full_refuses', 'hashtable/ht_full.cpp', {'assert': 'C03'}, models=['sc'], bound=100)
 S('ht_probe_two_full_groups', 'hashtable/ht_probe.cpp', {'assert': 'C03'}, models=['sc'], bound=100, defs=['VF_FULL_GROUPS=2'])
@@ -412,4 +428,5 @@ S('ht_probe_three_full_groups', 'hashtable/ht_probe.cpp', {'assert': 'C03'}, mod
 # ----------------------------------------------------------------------------------------------- C20: logging
 LEX = ['babylon/logging/log_entry.cpp', 'babylon/reusable/page_allocator.cpp']
 S('le_sputc_n40', 'logging/le3.cpp', {'assert': 'C20'}, extra=LEX, models=['sc'], bound=200, defs=['VF_N=40'])
+S('le_sputc_flush_n24', 'logging/le3.cpp', {'assert': 'C20'}, extra=LEX, models=['sc'], bound=200, defs=['VF_N=24', 'VF_FLUSH=1'])
 S('le_sputc_n130', 'logging/le3.cpp', {'assert': 'C20'}, extra=LEX, models=['sc'], bound=400, defs=['VF_N=130'], tiers=('thorough',), timeout=3600, qcap=1800)
